@@ -189,7 +189,7 @@ Apply(i, b) ==
        CASE dec = "allow"   -> ApplyAllowed(i, b)
          [] dec = "rewrite" -> ApplyAllowed([i EXCEPT !.tag = "rw"], b)     \* acted upon in the form the authorizer left it
          [] OTHER           -> Commit(RefuseFx(Cur, i.s, TypeCode(MsgType(i)), IF i.op \in {"yield"} THEN i.id ELSE i.req, dec,
-                                               i.op = "publish" /\ ~i.o.ack))
+                                               SilentRefusal(i)))
 
 \* --------------------------------------------------------------------------
 IsEvent(e) == l <= Len(TraceLog) /\ TraceLog[l].ev = e /\ l' = l + 1
